@@ -4,9 +4,8 @@
    (a) BIP341 defines no message for hash types other than 00 01 02 03 81 82 83; Tx.sig_hash_bip341
        builds one for every byte (so OP_CHECKSIG in tapscript and the key-path rule accept a
        65-byte signature with, e.g., hash type 0x04);
-   (b) Bitcoin Core's SignatureHash selects NONE / SINGLE with `nHashType & 0x1f`, the library with
-       `hash_type & 3`: for the non-standard byte 0x06 consensus hashes all outputs, the library
-       none. *)
+   (b) (repaired by 9c0cf6b) Bitcoin Core's SignatureHash selects NONE / SINGLE with
+       `nHashType & 0x1f`; the library used `hash_type & 3`. *)
 From V Require Import Base.Prelude Base.Ints Model.Helper Model.Script Model.Tx Model.Sighash
   Model.SighashAbs Spec.TxData Proofs.SighashP Proofs.SighashCorP.
 From V Require Spec.Legacy Spec.Bip341.
@@ -22,15 +21,17 @@ Proof.
   - vm_compute. reflexivity.
 Qed.
 
-Lemma legacy_hash_type_mask :
-  exists t ct idx code cb ht p1 p2,
-    abs_tx t = Ok ct /\ abs_script code = Ok cb /\ standard_hash_type ht = false /\
-    legacy_preimage t idx code ht = Ok (Some p1) /\ Legacy.preimage cb ct idx ht = Some p2 /\
-    p1 <> p2.
+(* (b) was: the legacy / BIP143 builders masked the hash type with 3 instead of 0x1f.  Repaired in
+   /repo by 9c0cf6b; the positive statements for EVERY hash type byte are legacy_eq_spec_any and
+   bip143_eq_spec_any (Proofs/SighashLegacyP.v, SighashSegwitP.v).  The former witness: *)
+Lemma legacy_hash_type_06 :
+  exists ct cb p,
+    abs_tx ex_tx = Ok ct /\ abs_script (mk_script (p2pkh_script ex_h20)) = Ok cb /\
+    standard_hash_type 6 = false /\
+    legacy_preimage ex_tx 0 (mk_script (p2pkh_script ex_h20)) 6 = Ok (Some p) /\
+    Legacy.preimage cb ct 0 6 = Some p.
 Proof.
-  exists ex_tx. eexists. exists 0%nat, (mk_script (p2pkh_script ex_h20)). eexists. exists 6.
-  eexists. eexists.
+  eexists. eexists. eexists.
   split; [vm_compute; reflexivity|]. split; [vm_compute; reflexivity|]. split; [reflexivity|].
-  split; [vm_compute; reflexivity|]. split; [vm_compute; reflexivity|].
-  vm_compute. discriminate.
+  split; vm_compute; reflexivity.
 Qed.
